@@ -43,6 +43,7 @@ type GenOpts struct {
 	WildLits    bool // literal texts with escapes / non-ASCII (for grammars that are printed, not parsed)
 	Embeds      bool // Go-source rendering: put leading fields into an embedded named struct
 	DeepEmbeds  bool // StructOf rendering: leading fields in a struct embedded by value 1-4 levels deep
+	BadElide    bool // one grammar in twenty-five gets a further Elide() option naming a token type the lexer does not define
 	Statics     bool // one grammar in twenty is a hand-written one whose production contains itself directly (static.go)
 	Parseables  bool // user-implemented productions (participle.Parseable)
 }
@@ -913,6 +914,9 @@ func GenGrammar(t *rapid.T, o GenOpts) *Grammar {
 	}
 	es := g.Prof().ElideSets
 	g.Elide = es[rapid.IntRange(0, len(es)-1).Draw(t, "elideset")]
+	if o.BadElide && rapid.IntRange(0, 24).Draw(t, "badelide") == 0 {
+		g.ExtraElide = []string{rapid.SampledFrom([]string{"Whitespace", "Nope", "EOL", "comment"}).Draw(t, "badelidename")}
+	}
 	nu := rapid.IntRange(1, 4).Draw(t, "nunions")
 	c := &genCtx{t: t, g: g, o: o, nu: nu}
 	c.newProd(true, rapid.IntRange(1, o.MaxDepth).Draw(t, "depth"))
